@@ -69,7 +69,22 @@ def family():
                 g = nslgen.Gen(len(out) * 7919 + 13)
                 inputs = [({"a": A.enc(g.value(t), t), "k": A.enc(kk, INT)}, {}) for kk in (0, 1)]
                 out.append((prog, inputs))
-    # ---- call graphs: recursion with values live across the call, mutual recursion, nested and repeated calls, overloads
+    # ---- a vector argument whose COMPONENT type is converted for the callee (float vector -> int vector parameter and back): the
+    # conversion produces the callee's value, the caller's variable keeps its own (fractions included)
+    for n in (2, 3, 4):
+        for src, dst in (("float", "int"), ("int", "float")):
+            ts, td = A.vec(src, n), A.vec(dst, n)
+            sumf = A.func("csum", [("v", td)], {"k": dst}, A.block([A.estmt(A.asg(A.idx(A.var("v"), A.lit_i(0)), A.lit_i(9))), A.ret(A.bin_("+", A.idx(A.var("v"), A.lit_i(0)), A.idx(A.var("v"), A.lit_i(n - 1))))]))
+            vals = [j + 1.5 for j in range(n)] if src == "float" else [j + 2 for j in range(n)]
+            for shape in ("param", "local", "twice"):
+                if shape == "param":
+                    body = [A.decl("r", {"k": dst}, A.call("csum", [A.var("a")])), A.ret(A.var("a"))]
+                elif shape == "local":
+                    body = [A.decl("b", ts, A.var("a")), A.decl("r", {"k": dst}, A.call("csum", [A.var("b")])), A.ret(A.bin_("+", A.var("b"), A.var("a")))]
+                else:
+                    body = [A.decl("r", {"k": dst}, A.call("csum", [A.var("a")])), A.decl("q", {"k": dst}, A.call("csum", [A.var("a")])), A.ret(A.bin_("*", A.var("a"), A.bin_("+", A.var("r"), A.var("q"))))]
+                prog = A.prog([], [sumf, A.func("f", [("a", ts), ("k", INT)], ts if shape != "twice" or src == dst else (ts if src == "float" else td), A.block(body), True)])
+                out.append((prog, [({"a": A.enc(vals, ts), "k": A.enc(0, INT)}, {})]))
     V, L, B, C = A.var, A.lit_i, A.bin_, A.call
 
     def entry(params, rt, stmts):
